@@ -153,7 +153,7 @@ M = [
      "            lamb_n = lamb * params.lamb_inc",
      "            lamb_n = lamb / params.lamb_inc"),
     ("C15", "lamb_max_after_next_step", "pygradflow/solver.py",
-     "            if lamb >= params.lamb_max:",
+     "            if lamb >= params.lamb_max and not timer.reached_time_limit():",
      "            if lamb >= 4.0 * params.lamb_max:"),
     ("C15", "exact_accepts_on_rate", "pygradflow/step/exact_control.py",
      "            if next_func_val <= self.params.newton_tol:",
